@@ -2,21 +2,28 @@
   Model of dynamic typing, substitution and nil checks:
 
     xmlschema/validators/complex_types.py  XsdComplexType.is_derived      (646-673)
-    xmlschema/validators/simple_types.py   XsdSimpleType.is_derived       (412-440)
+    xmlschema/validators/simple_types.py   XsdSimpleType.is_derived       (412-440)  (atomic types,
+                                           restrictions, unions)
+                                           XsdList.is_derived             (961-979)
     xmlschema/validators/xsdbase.py        XsdType.is_blocked             (843-857)
-    xmlschema/validators/xsd_globals.py    get_instance_type              (285-315, without unions)
+    xmlschema/validators/xsd_globals.py    get_instance_type              (285-315, with the union clause)
     xmlschema/validators/elements.py       XsdElement.raw_decode          (597-772, decision part:
                                            xsi:type, abstract, nil, content/fixed)
                                            _parse_substitution_group (359-413), iter_substitutes (550-557)
-                                           Xsd11Element.get_alternative_type (1342-1363)
-    xmlschema/validators/groups.py         XsdGroup.check_dynamic_context (852-913, block part)
+                                           Xsd11Element.get_alternative_type (1342-1393)
+    xmlschema/validators/groups.py         XsdGroup.check_dynamic_context (852-913: substitution block,
+                                           xsi:type of a substitute, block of the head on the xsi type)
 
   No Mathlib import: linked into the native driver.
 
   A type hierarchy is a list of type definitions, a type is its index (object identity in Python;
-  the harness numbers the built objects so that a base type precedes its derived types).
-  Union member lookup (`isinstance(other, XsdUnion)`) is not modelled: the harness generates no
-  unions and refuses to serialise one.
+  the harness numbers the built objects so that base, content, item and member types precede the
+  type that uses them).
+
+  `Quirks` switches the behaviours of the code that are recorded as findings (notes/findings/C07.json):
+  a flag that is `true` = the behaviour of the pinned code, `false` = the repaired behaviour
+  (notes/fixes/C07-is-derived.patch).  The harness switches on exactly the flags of the findings whose
+  status is `known`.
 -/
 namespace XsVerif.Derivation
 
@@ -33,65 +40,146 @@ structure TDef where
   content : Option Nat := none        -- the simple type that is the content of a simple-content type
   abstract : Bool := false
   block : List Meth := []             -- `block` restricted to extension / restriction
+  anyAtomic : Bool := false           -- name == xs:anyAtomicType
+  atomicCls : Bool := false           -- isinstance(XsdAtomic): `_special_types` has xs:anyAtomicType
+  isList : Bool := false              -- isinstance(XsdList)
+  item : Option Nat := none           -- `item_type` of an XsdList
+  isUnion : Bool := false             -- isinstance(XsdUnion)
+  members : List Nat := []            -- `member_types` of an XsdUnion
+  unionLike : Bool := false           -- `is_union()` (a union or a restriction of one)
+  facets : Bool := false              -- `bool(facets)`
+  primUnion : Option Nat := none      -- XsdAtomicRestriction whose `primitive_type` is an XsdUnion
   deriving Repr, Inhabited
 
 abbrev Hier := List TDef
 
-/-- "derivation mode checked" (complex_types.py:648-649). -/
+/-- Behaviours of the pinned code recorded as findings; `true` = as in the pinned code. -/
+structure Quirks where
+  contentSelf : Bool := false   -- C07-F1: the content type of a simple-content type answers for itself
+                                --   with a derivation mode still pending
+  listItem : Bool := false      -- C07-F2: a list type is derived from its item type
+  unionCut : Bool := false      -- C07-F3: a union target stops the walk up the base types (and list
+                                --   receivers have no union branch)
+  simpleExt : Bool := false     -- C07-F4: a simple type without `derivation` (builtin, list, union)
+                                --   keeps a pending 'extension' and answers True at its base / itself
+  anyShort : Bool := false      -- C07-F5: xs:anyType answers a pending mode without walking the chain
+  deriving Repr, Inhabited, DecidableEq
+
+def Quirks.repaired : Quirks := {}
+def Quirks.pinned : Quirks :=
+  { contentSelf := true, listItem := true, unionCut := true, simpleExt := true, anyShort := true }
+
+/-- "derivation mode checked" (complex_types.py:648-649, simple_types.py:965-966). -/
 def clearC (d td : Option Meth) : Option Meth := if d.isSome && d == td then none else d
 
 /-- simple_types.py:413-417: `none` = `return False`. -/
-def clearS (d td : Option Meth) : Option (Option Meth) :=
-  if d.isSome then (if d == td then some none else if td.isSome then none else some d) else some d
+def clearS (q : Quirks) (d td : Option Meth) : Option (Option Meth) :=
+  if d.isSome then
+    (if d == td then some none
+     else if td.isSome || (!q.simpleExt && d == some .ext) then none else some d)
+  else some d
 
-/-- `is_derived(other, derivation)` of both classes; dynamic dispatch = the `complex` flag of the
-    receiver.  `none` = fuel exhausted or dangling index (never a verdict). -/
-def isDerived : Nat → Hier → Nat → Nat → Option Meth → Option Bool
+/-- Python `any(f(m) for m in ms)`; `none` = some call ran out of fuel before a `True`. -/
+def anyM (f : Nat → Option Bool) : List Nat → Option Bool
+  | [] => some false
+  | m :: ms =>
+    match f m with
+    | some true => some true
+    | some false => anyM f ms
+    | none => none
+
+/-- `other.name in self._special_types` of the simple variants. -/
+def specialS (T U : TDef) : Bool := U.anyType || U.anySimple || (T.atomicCls && U.anyAtomic)
+
+/-- `is_derived(other, derivation)` of the three classes; dynamic dispatch = the `complex` / `isList`
+    flags of the receiver.  `none` = fuel exhausted or dangling index (never a verdict). -/
+def isDerived (q : Quirks) : Nat → Hier → Nat → Nat → Option Meth → Option Bool
   | 0, _, _, _, _ => none
   | fuel + 1, h, t, u, d =>
     match h[t]?, h[u]? with
     | some T, some U =>
       if T.complex then
         let d := clearC d T.deriv
-        if t == u then some true
-        else if U.anyType then some (d != some .ext)
-        else if T.base == some u then some d.isNone
-        else match T.base with
-          | none =>
-            if !T.simpleContent then some false
-            else match T.content with
-              | some c => isDerived fuel h c u d
-              | none => some false
+        let contentPath : Option Bool :=
+          match T.content with
+          | some c =>
+            if !q.contentSelf && d.isSome && c == u then some false else isDerived q fuel h c u d
+          | none => some false
+        let rest : Option Bool :=
+          match T.base with
+          | none => if !T.simpleContent then some false else contentPath
           | some b =>
             if T.simpleContent then
-              match T.content with
-              | some c =>
-                match isDerived fuel h c u d with
-                | some true => some true
-                | some false => if b != t then isDerived fuel h b u d else some false
-                | none => none
-              | none => if b != t then isDerived fuel h b u d else some false
-            else isDerived fuel h b u d
+              match contentPath with
+              | some true => some true
+              | some false => if b != t then isDerived q fuel h b u d else some false
+              | none => none
+            else isDerived q fuel h b u d
+        if t == u then some true
+        else if U.anyType && (q.anyShort || d.isNone || T.base.isNone) then some (d != some .ext)
+        else if T.base == some u then some d.isNone
+        else if U.isUnion then
+          (if q.unionCut then anyM (fun m => isDerived q fuel h t m d) U.members
+           else match anyM (fun m => isDerived q fuel h t m d) U.members with
+             | some true => some true
+             | some false => rest
+             | none => none)
+        else rest
+      else if T.isList then
+        let d := clearC d T.deriv
+        if d.isSome && T.deriv.isSome && d != T.deriv then some false
+        else if !q.simpleExt && d == some .ext then some false
+        else if t == u then some true
+        else if U.anyType || U.anySimple then some (d != some .ext)
+        else if q.listItem && T.item == some u then some true
+        else if !q.unionCut && U.isUnion then anyM (fun m => isDerived q fuel h t m d) U.members
+        else some false
       else
-        match clearS d T.deriv with
+        match clearS q d T.deriv with
         | none => some false
         | some d =>
           if t == u then some true
-          else if U.anyType || U.anySimple then some (d != some .ext)
+          else if specialS T U then some (d != some .ext)
           else if T.base == some u then some true
           else match T.base with
-            | none => some false
+            | none => if U.isUnion then anyM (fun m => isDerived q fuel h t m d) U.members else some false
             | some b =>
               match h[b]? with
               | some B =>
                 if B.complex then
                   (if !B.simpleContent then some false
                    else match B.content with
-                     | some c => isDerived fuel h c u d
+                     | some c => isDerived q fuel h c u d
                      | none => none)
-                else isDerived fuel h b u d
+                else if U.isUnion then
+                  (if q.unionCut then anyM (fun m => isDerived q fuel h t m d) U.members
+                   else match anyM (fun m => isDerived q fuel h t m d) U.members with
+                     | some true => some true
+                     | some false => isDerived q fuel h b u d
+                     | none => none)
+                else isDerived q fuel h b u d
               | none => none
     | _, _ => none
+
+/-- `get_instance_type` (xsd_globals.py:299-315) after the name lookup: may `t` stand for the declared
+    type?  Derived, or a direct member of a facet-less union (or of the union that is the primitive
+    type of a facet-less restriction). -/
+def instType (q : Quirks) (fuel : Nat) (h : Hier) (t declTy : Nat) : Option Bool :=
+  match isDerived q fuel h t declTy none with
+  | none => none
+  | some true => some true
+  | some false =>
+    match h[declTy]? with
+    | none => none
+    | some D =>
+      if !D.complex && D.unionLike && !D.facets then
+        match D.primUnion with
+        | some p =>
+          (match h[p]? with
+           | some P => some (P.members.contains t)
+           | none => none)
+        | none => if D.isUnion then some (D.members.contains t) else some false
+      else some false
 
 /-- An element declaration as far as these checks are concerned. -/
 structure EDecl where
@@ -105,14 +193,14 @@ structure EDecl where
   deriving Repr, Inhabited
 
 /-- `XsdType.is_blocked(xsd_element)` (xsdbase.py:843-857) with the block sets already split. -/
-def isBlocked (fuel : Nat) (h : Hier) (t : Nat) (eBlock : List Meth) (declTy : Nat) : Option Bool :=
+def isBlocked (q : Quirks) (fuel : Nat) (h : Hier) (t : Nat) (eBlock : List Meth) (declTy : Nat) : Option Bool :=
   if t == declTy then some false
   else match h[declTy]? with
     | none => none
     | some D =>
       let blk := eBlock ++ D.block
       blk.foldr (fun m acc =>
-        match isDerived fuel h t declTy (some m), acc with
+        match isDerived q fuel h t declTy (some m), acc with
         | some true, _ => some true
         | some false, a => a
         | none, _ => none) (some false)
@@ -129,6 +217,8 @@ inductive Err where
   | content              -- content not valid for the governing type
   | fixedValue           -- "must have the fixed value"
   | fuel                 -- model could not decide (never compared as a verdict)
+  | substBlocked         -- "substitution of ... is blocked" (groups.py:857-862)
+  | headBlocked          -- "usage of ... is blocked by head element" (groups.py:908-915)
   deriving DecidableEq, Repr, Inhabited
 
 /-- `xsi:type`: absent, names no global type, or names type `t`. -/
@@ -149,16 +239,16 @@ structure CSem where
   fixedOk : Nat → Nat → Bool          -- value-space comparison with the declared fixed value
 
 /-- xsi:type part of `raw_decode` (elements.py:659-684): errors and the governing type. -/
-def xsiStep (fuel : Nat) (h : Hier) (e : EDecl) (declTy : Nat) (x : XsiAttr) : List Err × Nat :=
+def xsiStep (q : Quirks) (fuel : Nat) (h : Hier) (e : EDecl) (declTy : Nat) (x : XsiAttr) : List Err × Nat :=
   match x with
   | .absent => ([], declTy)
   | .unknown => ([.unknownType], declTy)
   | .named t =>
-    match isDerived fuel h t declTy none with
+    match instType q fuel h t declTy with
     | none => ([.fuel], declTy)
     | some false => ([.notDerived], declTy)
     | some true =>
-      match isBlocked fuel h t e.block e.ty with
+      match isBlocked q fuel h t e.block e.ty with
       | none => ([.fuel], t)
       | some true => ([.blocked], t)
       | some false => ([], t)
@@ -177,8 +267,8 @@ def nilStep (e : EDecl) (i : Inst) : List Err × Bool :=
 
 /-- Decision part of `XsdElement.raw_decode` for a non-abstract element whose declared type (after
     type alternatives) is `declTy`. -/
-def elementErrs (fuel : Nat) (h : Hier) (cs : CSem) (e : EDecl) (declTy : Nat) (i : Inst) : List Err :=
-  let (xe, gov) := xsiStep fuel h e declTy i.xsi
+def elementErrs (q : Quirks) (fuel : Nat) (h : Hier) (cs : CSem) (e : EDecl) (declTy : Nat) (i : Inst) : List Err :=
+  let (xe, gov) := xsiStep q fuel h e declTy i.xsi
   let ae := match h[gov]? with
     | some G => if G.abstract then [Err.abstractType] else []
     | none => [Err.fuel]
@@ -222,7 +312,7 @@ inductive SubstVerdict where
 /-- A child named as global element `m` where the content model expects `head` (m ≠ head):
     `match` via `substitutes` (non-abstract registered members) and the block part of
     `check_dynamic_context` (groups.py:857-862, 897-905 without xsi:type). -/
-def substVerdict (fuel : Nat) (h : Hier) (es : List EDecl) (head m : Nat) : SubstVerdict :=
+def substVerdict (q : Quirks) (fuel : Nat) (h : Hier) (es : List EDecl) (head m : Nat) : SubstVerdict :=
   match es[head]?, es[m]? with
   | some H, some M =>
     match reaches fuel es m head with
@@ -231,10 +321,97 @@ def substVerdict (fuel : Nat) (h : Hier) (es : List EDecl) (head m : Nat) : Subs
     | some true =>
       if M.abstract then .notSubstitute
       else if H.blockSubst then .blocked
-      else match isBlocked fuel h M.ty H.block H.ty with
+      else match isBlocked q fuel h M.ty H.block H.ty with
         | none => .fuel
         | some true => .blocked
         | some false => .accepted
   | _, _ => .fuel
+
+/-! ### a substitute that carries xsi:type -/
+
+/-- The block part of `XsdGroup.check_dynamic_context` (groups.py:852-915) for a child that matched
+    the model element `head` through its substitute `m` (head ≠ m) and carries `x` as xsi:type.
+    The method raises, so at most one error is reported:
+    1. substitution blocked by the head (`'substitution' in head.block`, or the member's declared type
+       is blocked for the head: block of the head and of the head's type),
+    2. the xsi:type name is unknown / cannot substitute the MEMBER's declared type,
+    3. the instance type (xsi type, else the member's type) is derived from the head's type by a
+       method in the HEAD's block (the head's type's block is not consulted here). -/
+def dynContextErrs (q : Quirks) (fuel : Nat) (h : Hier) (H M : EDecl) (x : XsiAttr) : List Err :=
+  if H.blockSubst then [.substBlocked]
+  else match isBlocked q fuel h M.ty H.block H.ty with
+    | none => [.fuel]
+    | some true => [.substBlocked]
+    | some false =>
+      match x with
+      | .absent => []      -- step 3 repeats step 1 with a subset of the block
+      | .unknown => [.unknownType]
+      | .named t =>
+        match instType q fuel h t M.ty with
+        | none => [.fuel]
+        | some false => [.notDerived]
+        | some true =>
+          if t == H.ty then []
+          else H.block.foldr (fun m acc =>
+            match isDerived q fuel h t H.ty (some m), acc with
+            | some true, _ => [.headBlocked]
+            | some false, a => a
+            | none, _ => [.fuel]) []
+
+/-- A child named as global element `m` where the content model expects `head` (m ≠ head), with an
+    instance `i` (xsi:type, xsi:nil, content): `none` = not a substitute at all (children error);
+    otherwise the errors of `check_dynamic_context` followed by those of the member's own
+    `raw_decode` (which checks the xsi:type against the MEMBER's declaration). -/
+def substXsiErrs (q : Quirks) (fuel : Nat) (h : Hier) (cs : CSem) (es : List EDecl) (head m : Nat)
+    (i : Inst) : Option (List Err) :=
+  match es[head]?, es[m]? with
+  | some H, some M =>
+    match reaches fuel es m head with
+    | none => some [.fuel]
+    | some false => none
+    | some true =>
+      if M.abstract then none
+      else some (dynContextErrs q fuel h H M i.xsi ++ elementErrs q fuel h cs M M.ty i)
+  | _, _ => some [.fuel]
+
+/-! ### XSD 1.1 type alternatives: the test expressions the harness generates -/
+
+/-- XPath tests over the attributes of the element: `@a = 'v'`, `@a != 'v'`, `@a`, `not(..)`,
+    `.. and ..`, `.. or ..`. -/
+inductive Test where
+  | eq (a v : String)
+  | ne (a v : String)
+  | has (a : String)
+  | not (t : Test)
+  | and (l r : Test)
+  | or (l r : Test)
+  deriving Repr, Inhabited
+
+def attrVal (attrs : List (String × String)) (a : String) : Option String :=
+  match attrs with
+  | [] => none
+  | (k, v) :: rest => if k == a then some v else attrVal rest a
+
+/-- Effective boolean value of the test.  A general comparison with an empty sequence (missing
+    attribute) is false for `=` AND for `!=`. -/
+def evalTest (attrs : List (String × String)) : Test → Bool
+  | .eq a v => match attrVal attrs a with | some w => w == v | none => false
+  | .ne a v => match attrVal attrs a with | some w => w != v | none => false
+  | .has a => (attrVal attrs a).isSome
+  | .not t => !evalTest attrs t
+  | .and l r => evalTest attrs l && evalTest attrs r
+  | .or l r => evalTest attrs l || evalTest attrs r
+
+/-- does the alternative apply?  (`alt.token is None or alt.test(elem)`, elements.py:1388-1391) -/
+def altHolds (attrs : List (String × String)) (a : Option Test × Nat) : Bool :=
+  match a.1 with
+  | none => true
+  | some t => evalTest attrs t
+
+/-- `Xsd11Element.get_alternative_type` without inherited attributes (elements.py:1388-1393). -/
+def selectAltT (attrs : List (String × String)) (alts : List (Option Test × Nat)) (dflt : Nat) : Nat :=
+  match alts with
+  | [] => dflt
+  | a :: rest => if altHolds attrs a then a.2 else selectAltT attrs rest dflt
 
 end XsVerif.Derivation
